@@ -373,6 +373,9 @@ type c05RemoteSpec struct {
 func genC05Remote(rng *rand.Rand, idx int, thorough bool) *c05RemoteSpec {
 	sp := &c05RemoteSpec{Idx: idx, Seed: rng.Int63()}
 	n := 10 + rng.Intn(8)
+	if idx == 0 {
+		n = 70 // ~45 s of output: still running when the long outage ends
+	}
 	for i := 0; i < n; i++ {
 		sp.Chunks = append(sp.Chunks, GenChunk{N: 1 + rng.Intn(30000), PauseMs: 300 + rng.Intn(300)})
 	}
@@ -386,6 +389,11 @@ func genC05Remote(rng *rand.Rand, idx int, thorough bool) *c05RemoteSpec {
 	}
 	for i := 0; i < nf; i++ {
 		sp.Faults = append(sp.Faults, c05Fault{Kind: kinds[rng.Intn(len(kinds))], AtPct: 5 + rng.Intn(85), ForMs: 300 + rng.Intn(1700)})
+	}
+	if idx == 0 {
+		// one trial per run breaks the connection for longer than the QUIC idle timeout (30 s), so that the
+		// transfer in progress ends with an error after bytes were stored and has to be resumed
+		sp.Faults = append(sp.Faults, c05Fault{Kind: "outageMR", AtPct: 20 + rng.Intn(40), ForMs: 34000})
 	}
 	// faults in order of position
 	for i := range sp.Faults {
@@ -504,6 +512,10 @@ func c05Remote(run *ev.Run, dir string, sp *c05RemoteSpec) {
 			time.Sleep(time.Duration(f.ForMs) * time.Millisecond)
 			pLM.Heal()
 		case "cutMR":
+			pMR.Cut()
+			time.Sleep(time.Duration(f.ForMs) * time.Millisecond)
+			pMR.Heal()
+		case "outageMR":
 			pMR.Cut()
 			time.Sleep(time.Duration(f.ForMs) * time.Millisecond)
 			pMR.Heal()
